@@ -1,0 +1,1 @@
+//! Hooks for property C31 (empty unless needed).
